@@ -184,6 +184,8 @@ def drive(result, history, on_step=None, details_fn=None):
             result.time(TIMES[op[1]])
         elif kind == "progress":
             result.progress(op[1], op[2])
+        elif kind == "failfast":
+            result.failfast = op[1]
         elif kind == "stop":
             result.stop()
         elif kind == "done":
